@@ -1,41 +1,55 @@
 (* C05 — flattening never changes what later flattening produces.
    Property theorems only; proofs live in Proofs/C05_frame.v.
-   The model abstracts flatten to its FOOTPRINT (Model/C05_frame.v): the result of a request is
-   an arbitrary function `res` of the parsed tree as it is when the request is made, and the
-   request then writes arbitrarily inside the looked-up class and allocates.  `neutral` stands
-   for the exact writes that reach the parsed tree even with copy-on-lookup (import memo,
-   constants returned uncopied, argument hooks); that they do not change any result
-   (`res_neutral`) is a PREMISE of the theorems, validated on every run by the sequence oracle. *)
+   Model (Model/C05_frame.v): a request for class p runs an ARBITRARY program `prog_of p` that reads
+   the parsed tree only through three queries (class lookup `find` = _find_class with import memo and
+   unqualified imports; effective value of a constant; content of a class); it then writes
+   arbitrarily inside the FOOTPRINT of the looked-up class and allocates, and the neutral fields of
+   the parsed tree move by the three exact writes (`nstar`: import memo caching the reference found,
+   constants renamed/modified in place, argument hooks bound to self).
+   No theorem below has a premise about results: that the three writes are invisible is PROVED
+   (Proofs/C05_frame.v exec_neutral, via find_memo_eq: lookup with a sound memo = lookup without).
+   What stays trusted: the real flatten reads/writes the parsed tree only as modelled (snapshot
+   correspondence + lookup correspondence + sequence oracle). *)
 From Coq Require Import List Arith Bool.
 From PV Require Import Lib.ObjGraph Model.C06_deepcopy Proofs.C06_deepcopy Model.C05_frame Proofs.C05_frame.
 Import ListNotations.
 
-(* frame: with copy=True (tree.py:1242 as it is) one request leaves the parsed tree unchanged
-   except for neutral writes, whatever flatten writes inside its footprint *)
-Theorem C05_frame (R : Type) (res : tree -> path -> R) (neutral : tree -> tree -> Prop)
-    (w w' : world) (p : path) (r : R) (t0 : tree) :
-  nth_error w 0 = Some t0 -> neutral t0 t0 -> fstep R res neutral true w p w' r ->
-  r = res t0 p /\ exists t0', nth_error w' 0 = Some t0' /\ neutral t0 t0'.
-Proof. exact (frame R res neutral w p w' r t0). Qed.
+(* frame: with copy=True (tree.py:1242 as it is) one request leaves the parsed tree EXACTLY as it
+   was — whatever flatten writes inside its footprint — and moves the neutral fields only by the
+   three exact writes *)
+Theorem C05_frame (R : Type) (prog_of : path -> prog R) (st st' : world * xmap) (p : path) (r : R) (t0 : tree) :
+  nth_error (fst st) 0 = Some t0 -> fstep R prog_of true st p st' r ->
+  r = exec (prog_of p) t0 (snd st) /\ nth_error (fst st') 0 = Some t0 /\ nstar t0 (snd st) (snd st').
+Proof. exact (frame R prog_of st p st' r t0). Qed.
 Print Assumptions C05_frame.
 
-(* sequences: any finite sequence of requests (repeats, different classes, classes used by
-   earlier ones) gives at every step the result of that request on the initial parsed tree *)
-Theorem C05_sequences (R : Type) (res : tree -> path -> R) (neutral : tree -> tree -> Prop) :
-  (forall x, neutral x x) ->
-  (forall a b c, neutral a b -> neutral b c -> neutral a c) ->
-  (forall t t' p, neutral t t' -> res t' p = res t p) ->
-  forall (ps : list path) (w w' : world) (rs : list R) (t0 : tree),
-    nth_error w 0 = Some t0 -> fseq R res neutral true w ps w' rs -> rs = map (res t0) ps.
+(* the three exact writes are invisible to every request (formerly a premise) *)
+Theorem C05_neutral (R : Type) (t : tree) (xm xm' : xmap) (pr : prog R) :
+  memo_sound t xm -> nstar t xm xm' -> exec pr t xm' = exec pr t xm.
+Proof. intros Hs Hn. exact (exec_neutral t xm xm' Hs Hn pr). Qed.
+Print Assumptions C05_neutral.
+
+(* class lookup with a sound import memo = the un-memoised search (induction on the climb) *)
+Theorem C05_memo_transparent (t : tree) (xm : xmap) (rp : list key) (k : key) :
+  memo_sound t xm -> find t xm rp k = find0 t (fun p => stars (xget xm p)) rp k.
+Proof. intros Hs. exact (find_memo_eq t xm Hs rp k). Qed.
+Print Assumptions C05_memo_transparent.
+
+(* sequences: any finite sequence of requests (repeats, different classes, classes used by earlier
+   ones) gives at every step the result of that request on the initial state (a fresh parse: empty
+   memos, `fresh_sound`) — no premise about results *)
+Theorem C05_sequences (R : Type) (prog_of : path -> prog R)
+    (ps : list path) (st st' : world * xmap) (rs : list R) (t0 : tree) :
+  nth_error (fst st) 0 = Some t0 -> memo_sound t0 (snd st) ->
+  fseq R prog_of true st ps st' rs -> rs = map (fun p => exec (prog_of p) t0 (snd st)) ps.
 Proof.
-  intros Hrefl Htrans Hres ps w w' rs t0 Ht Hseq.
-  exact (sequences_gen R res neutral Htrans Hres ps w w' rs Hseq t0 t0 Hrefl Ht (Hrefl t0)).
+  intros Ht Hs Hseq.
+  exact (sequences_gen R prog_of ps st st' rs Hseq t0 (snd st) Ht Hs (nstar_refl t0 (snd st))).
 Qed.
 Print Assumptions C05_sequences.
 
 (* the lookup of an existing class with copy=True is C06's detached copy: a new tree with the
-   same names and content whose root keeps the ORIGINAL parent (so lookups from the copy still
-   reach the rest of the library) *)
+   same names and content whose root keeps the ORIGINAL parent *)
 Theorem C05_lookup_copy (w : world) (p : path) (i0 : info) (rest : list (path * info)) :
   wf_at w (0, p) i0 rest -> get w (0, p) <> None ->
   lookup true w p = Some (w ++ [spec_copy (length w) i0 rest], (length w, [])).
@@ -45,25 +59,50 @@ Print Assumptions C05_lookup_copy.
 (* copy=False (tree.py before bc8343b): a footprint-conforming flatten (a symbol of the
    requested class consumed in place) makes the second identical request differ *)
 Theorem C05_refuted :
-  exists w w1 w2 p r1 r2,
-    fseq (option cdata) ex5_res eq false w [p; p] w2 [r1; r2] /\
-    fstep (option cdata) ex5_res eq false w p w1 r1 /\ r1 <> r2.
+  exists st st1 st2 p r1 r2,
+    fseq (option cdata) ex5_prog false st [p; p] st2 [r1; r2] /\
+    fstep (option cdata) ex5_prog false st p st1 r1 /\ r1 <> r2.
 Proof. exact refuted_no_copy. Qed.
 Print Assumptions C05_refuted.
 
-(* non-vacuity: a two-request sequence with copy=True on a concrete library exists (the
-   footprint writes into the copy, tree 0 is untouched) *)
+(* non-vacuity: a package with two unqualified imports; the first request memoises the reference
+   found (NS_memo), a constant is modified in place (NS_const); the second request returns the same *)
+Definition ex5_lib : tree :=
+  [ ([], Info (CD [] 0) None None);
+    ([1], Info (CD [] 0) (Some (0, [])) None); ([1; 7], Info (CD [3] 1) (Some (0, [1])) None);
+    ([2], Info (CD [] 0) (Some (0, [])) None); ([2; 8], Info (CD [4] 1) (Some (0, [2])) None);
+    ([5], Info (CD [] 0) (Some (0, [])) None); ([5; 6], Info (CD [9] 0) (Some (0, [5])) None) ].
+Definition ex5_xm : xmap := [ ([5], Ext [[1]; [2]] [] [(3, CSym 0 10 (Some 11))] false) ].
+Definition ex5_prog2 (p : path) : prog (option path * option nat) :=
+  AskFind [6; 5] 7 (fun a => AskConst [5] 3 (fun b => Ret (a, b))).
+
 Example C05_example :
-  exists w', fseq (option cdata) ex5_res eq true [ex5_tree] [[1]; [1]] w' [Some (CD [4] 1); Some (CD [4] 1)].
+  memo_sound ex5_lib ex5_xm /\
+  exists st', fseq _ ex5_prog2 true ([ex5_lib], ex5_xm) [[5; 6]; [5; 6]] st'
+                   [(Some [1; 7], Some 11); (Some [1; 7], Some 11)] /\
+              snd st' <> ex5_xm.
 Proof.
-  assert (W : forall w c, nth_error w 0 = Some ex5_tree -> lookup true w [1] = Some (w ++ [c], (length w, [])) ->
-              fstep (option cdata) ex5_res eq true w [1] (w ++ [c]) (Some (CD [4] 1))).
-  { intros w c H0 L. exists ex5_tree. split; [exact H0|]. split; [reflexivity|]. rewrite L.
-    exists (w ++ [c]), ex5_tree, ex5_tree. split.
-    - split; [apply le_n|]. intros ti t1 H. exists t1. repeat split; auto.
-    - split; [rewrite nth_error_app1; [exact H0|apply nth_error_Some; congruence]|]. split; [reflexivity|].
-      destruct w; [discriminate H0|]. cbn in H0. injection H0 as ->. reflexivity. }
-  eexists. eapply fseq_cons; [apply W; [reflexivity|vm_compute; reflexivity]|].
-  eapply fseq_cons; [apply W; [reflexivity|vm_compute; reflexivity]|]. apply fseq_nil.
+  split; [apply fresh_sound; intros p; unfold xget, ex5_xm; cbn [assoc];
+          destruct (path_dec p [5]); reflexivity|].
+  set (xm1 := xset ex5_xm [5] (Ext [[1]; [2]] [(7, [1; 7])] [(3, CSym 0 10 (Some 11))] false)).
+  set (xm2 := xset xm1 [5] (Ext [[1]; [2]] [(7, [1; 7])] [(3, CSym 3 11 None); (3, CSym 0 10 (Some 11))] false)).
+  assert (N : nstar ex5_lib ex5_xm xm2).
+  { eapply nstar_step; [exact (NS_memo ex5_lib ex5_xm [5] 7 [1; 7] eq_refl)|].
+    eapply nstar_step; [exact (NS_const ex5_lib xm1 [5] 3 (CSym 0 10 (Some 11)) 3 eq_refl)|].
+    apply nstar_refl. }
+  assert (F : forall w c, footprint (w ++ [c]) (length w, []) (w ++ [c])).
+  { intros w c. split; [apply le_n|]. intros ti t1 H. exists t1. repeat split; auto. }
+  set (c1 := copy_ents fixed_flags 1 0 [5; 6] [] [([], Info (CD [9] 0) (Some (0, [5])) None)]).
+  set (c2 := copy_ents fixed_flags 2 0 [5; 6] [] [([], Info (CD [9] 0) (Some (0, [5])) None)]).
+  exists ([ex5_lib; c1; c2], xm2).
+  split; [|intros H; discriminate H].
+  apply fseq_cons with (st1 := ([ex5_lib; c1], xm2)).
+  - exists ex5_lib. split; [reflexivity|]. split; [reflexivity|]. split; [exact N|].
+    cbn [fst snd]. change (lookup true [ex5_lib] [5; 6]) with (Some ([ex5_lib] ++ [c1], (1, @nil key))).
+    apply (F [ex5_lib]).
+  - apply fseq_cons with (st1 := ([ex5_lib; c1; c2], xm2)); [|apply fseq_nil].
+    exists ex5_lib. split; [reflexivity|]. split; [vm_compute; reflexivity|]. split; [apply nstar_refl|].
+    cbn [fst snd]. change (lookup true [ex5_lib; c1] [5; 6]) with (Some ([ex5_lib; c1] ++ [c2], (2, @nil key))).
+    apply (F [ex5_lib; c1]).
 Qed.
 Print Assumptions C05_example.
